@@ -328,42 +328,42 @@ def ata_transfer(a):
 # MMC-6 READ CD: bytes per sector for (est, mcsb, c2ei, scsb); None = illegal/
 # unspecified combination (not generated)
 def readcd_sector_bytes(est, mcsb, c2ei, scsb):
+    """MMC-6 6.19 READ CD.  Main channel selection: SYNC(10h) header codes
+    (header 04h, sub-header 08h) USER DATA(02h) EDC&ECC(01h).  Only selections
+    that are unambiguous in MMC's "mapped values" table are given a size:
+    the selected fields must exist in the sector type and be contiguous in the
+    sector (sync, header, sub-header, user data, EDC/ECC); CD-DA offers user
+    data only.  Everything else -> None (never generated)."""
     sync = bool(mcsb & 0x10)
-    hdr = (mcsb >> 2) & 3  # header codes: 00 none, 01 header, 10 subheader, 11 both
+    header = bool(mcsb & 0x04)
+    subhdr = bool(mcsb & 0x08)
     user = bool(mcsb & 0x02)
     edc = bool(mcsb & 0x01)
-    n = 0
-    if est == 1:  # CD-DA: only user data exists
-        if sync or hdr or edc:
+    # (selected?, size) in sector order, per expected sector type
+    if est == 1:
+        if mcsb != 0x02:
             return None
-        n = 2352 if user else 0
-    elif est == 2:  # mode 1
-        if hdr & 2:
-            return None  # no sub-header in mode 1
-        n += 12 if sync else 0
-        n += 4 if hdr & 1 else 0
-        n += 2048 if user else 0
-        n += 288 if edc else 0  # EDC 4 + zero 8 + P 172 + Q 104
-    elif est == 3:  # mode 2 formless
-        if hdr & 2 or edc:
+        order = [(True, 2352)]
+    elif est == 2:
+        if subhdr:
             return None
-        n += 12 if sync else 0
-        n += 4 if hdr & 1 else 0
-        n += 2336 if user else 0
-    elif est == 4:  # mode 2 form 1
-        n += 12 if sync else 0
-        n += 4 if hdr & 1 else 0
-        n += 8 if hdr & 2 else 0
-        n += 2048 if user else 0
-        n += 280 if edc else 0  # EDC 4 + P 172 + Q 104
-    elif est == 5:  # mode 2 form 2
-        n += 12 if sync else 0
-        n += 4 if hdr & 1 else 0
-        n += 8 if hdr & 2 else 0
-        n += 2324 if user else 0
-        n += 4 if edc else 0
+        order = [(sync, 12), (header, 4), (user, 2048), (edc, 288)]  # EDC 4 + zero 8 + P 172 + Q 104
+    elif est == 3:
+        if subhdr or edc:
+            return None
+        order = [(sync, 12), (header, 4), (user, 2336)]
+    elif est == 4:
+        order = [(sync, 12), (header, 4), (subhdr, 8), (user, 2048), (edc, 280)]  # EDC 4 + P 172 + Q 104
+    elif est == 5:
+        order = [(sync, 12), (header, 4), (subhdr, 8), (user, 2324), (edc, 4)]
     else:
         return None
+    sel = [i for i, (on, _n) in enumerate(order) if on]
+    if sel and sel != list(range(sel[0], sel[-1] + 1)):
+        return None  # non-contiguous selection: illegal per MMC
+    if mcsb and not user:
+        return None  # header/EDC-only selections: MMC's mapped-values table not transcribed with confidence
+    n = sum(sz for on, sz in order if on)
     if c2ei == 1:
         n += 294
     elif c2ei == 2:
